@@ -23,7 +23,10 @@
 EXTENDS CmdLine
 
 IsLeaf(x)       == x.kind \in {"switch", "reqflag", "arg"}
-BranchLeaves(f) == UNION {RangeOf(f.branches[b].fields) : b \in DOMAIN f.branches}
+\* (a branch may also be a positional item: it has no name and takes the first word nobody claimed)
+BranchLeaves(f) == UNION {{x \in RangeOf(f.branches[b].fields) : x.kind # "pos"} : b \in DOMAIN f.branches}
+HasPosBranch(f) == f.kind = "alt" /\ \E b \in DOMAIN f.branches : \E x \in RangeOf(f.branches[b].fields) : x.kind = "pos"
+POOL == "$pos"
 NamedMembers(f) == {f.members[m] : m \in {m \in DOMAIN f.members : f.members[m].kind # "pos"}}
 PosMembers(f)   == SelectSeq(f.members, LAMBDA m : m.kind = "pos")
 \* the first item of an adjacent group is a required flag, or - for an adjacent subcommand - its name
@@ -111,7 +114,8 @@ GWord(d, gs, w) ==
        \* not claimed (positional words typed before it are still unclaimed when the command is looked for)
        IF ks # {} /\ s1.pos = <<>> /\ s1.dead = "" /\ CanEnter(d, s1, CHOOSE k \in ks : TRUE) /\ NoSurplus(d, s1)
        THEN AutoClose(d, [s1 EXCEPT !.open = [k |-> CHOOSE k \in ks : TRUE, p |-> s1.n, filled |-> <<>>, words |-> <<>>]])
-       ELSE IF d.tail.kind = "pos" THEN [s1 EXCEPT !.pos = Append(@, [w |-> w, after |-> FALSE])]
+       ELSE IF d.tail.kind = "pos" \/ \E k \in DOMAIN d.named : HasPosBranch(d.named[k])
+            THEN [s1 EXCEPT !.pos = Append(@, [w |-> w, after |-> FALSE, p |-> s1.n])]
        ELSE GKill(s1, "unexpected")
 
 GPlain(d, gs, e) ==
@@ -124,7 +128,7 @@ GPlain(d, gs, e) ==
 
 GStep0(d, gs0, e) ==
   LET gs == [gs0 EXCEPT !.n = @ + 1] IN
-  IF gs.posOnly THEN [gs EXCEPT !.pos = Append(@, [w |-> e.txt, after |-> TRUE])]
+  IF gs.posOnly THEN [gs EXCEPT !.pos = Append(@, [w |-> e.txt, after |-> TRUE, p |-> gs.n])]
   ELSE IF gs.pending # ""
        THEN LET s1 == [gs EXCEPT !.pending = ""] IN
             IF e.t = "word"
@@ -160,6 +164,14 @@ Conv(it, w) == IF it.kind # "arg" THEN "U" ELSE IF it.vt = "int" THEN ToInt(w) E
 \* one leaf of a branch tries to take its leftmost remaining occurrence; a leaf with no occurrence left
 \* whose environment variable is set takes the variable's value instead - consuming nothing (C18)
 LeafAttempt(it, R, envv, acc0) ==
+  IF it.kind = "pos"
+  THEN \* a positional branch takes the first word nobody has claimed; a word that does not convert makes the
+       \* branch fail for good ("phard") - but the word is not the branch's own and may still go elsewhere
+       IF R[POOL] = <<>> THEN [res |-> "miss", v |-> "NONE", used |-> {}, left |-> 0, all |-> FALSE]
+       ELSE LET h == Head(R[POOL]) IN
+            IF ConvBad(it.vt, h.w) THEN [res |-> "phard", v |-> "NONE", used |-> {}, left |-> 0, all |-> FALSE]
+            ELSE [res |-> "ok", used |-> {POOL}, left |-> h.p, all |-> FALSE, v |-> IF it.vt = "int" THEN ToInt(h.w) ELSE h.w]
+  ELSE
   LET occ == R[it.id]
       \* the environment stands in for an item only when the line does not mention the item at all
       ev  == IF acc0[it.id] = <<>> THEN EnvOf(envv, it) ELSE "UNSET" IN
@@ -204,6 +216,7 @@ AltRounds(f, R, vals, fuel, envv, acc0) ==
       S == {b \in DOMAIN A : A[b].res = "ok" /\ A[b].used # {}}
       Z == {b \in DOMAIN A : A[b].res = "ok"} IN
   IF \E b \in DOMAIN A : A[b].res = "hard" THEN [ok |-> FALSE, why |-> [k |-> "conv"]]
+  ELSE IF Z = {} /\ \E b \in DOMAIN A : A[b].res = "phard" THEN [ok |-> FALSE, why |-> [k |-> "conv"]]
   ELSE IF S = {} \/ fuel = 0
        THEN \* a repetition keeps one value of a parser that succeeds without consuming anything (defaults,
             \* environment) - the first time round only
@@ -215,31 +228,34 @@ AltRounds(f, R, vals, fuel, envv, acc0) ==
 
 Leftover(f, R) == \E it \in BranchLeaves(f) : R[it.id] # <<>>
 
-AltVal(f, acc, envv) ==
+\* `pool` = the words nobody has claimed yet (with their positions); the result says which of them remain
+AltVal(f, acc, envv, pool) ==
+  LET R0 == [i \in DOMAIN acc \cup {POOL} |-> IF i = POOL THEN pool ELSE acc[i]] IN
   IF f.arity \in {"many", "some"} THEN
-     LET r == AltRounds(f, acc, <<>>, 16, envv, acc) IN
+     LET r == AltRounds(f, R0, <<>>, 16, envv, R0) IN
      IF ~r.ok THEN r
      ELSE IF Leftover(f, r.R) THEN [ok |-> FALSE, why |-> [k |-> "leftover"]]
      ELSE IF f.arity = "some" /\ r.vals = <<>> THEN [ok |-> FALSE, why |-> [k |-> "missing", id |-> f.id]]
-     ELSE [ok |-> TRUE, v |-> r.vals]
+     ELSE [ok |-> TRUE, v |-> r.vals, pool |-> r.R[POOL]]
   ELSE
-     LET A == [b \in DOMAIN f.branches |-> BranchAttempt(f.branches[b], acc, envv, acc)]
-         O == {b \in DOMAIN f.branches : \E it \in RangeOf(f.branches[b].fields) : acc[it.id] # <<>>}
-         Z == {b \in DOMAIN A : A[b].res = "ok"} IN
+     \* every branch is tried on the same line; among those that succeed the one that consumed the leftmost
+     \* item wins (ties and non-consuming successes go to the first listed); what the losers would have
+     \* consumed stays on the line - a named item left there fails the run, a word goes on to the positionals
+     LET A == [b \in DOMAIN f.branches |-> BranchAttempt(f.branches[b], R0, envv, R0)]
+         Z == {b \in DOMAIN A : A[b].res = "ok"}
+         S == {b \in Z : A[b].used # {}}
+         Wrap(x) == IF f.arity = "opt" THEN [some |-> x] ELSE x IN
      IF \E b \in DOMAIN A : A[b].res = "hard" THEN [ok |-> FALSE, why |-> [k |-> "conv"]]
-     ELSE IF Cardinality(O) >= 2 THEN [ok |-> FALSE, why |-> [k |-> "conflict"]]
-     ELSE IF Cardinality(O) = 1 THEN
-          LET b == CHOOSE b \in O : TRUE
-              R2 == [i \in DOMAIN acc |-> IF i \in A[b].allof THEN <<>> ELSE IF i \in A[b].used THEN Tail(acc[i]) ELSE acc[i]] IN
-          IF A[b].res = "ok" /\ ~Leftover(f, R2)
-          THEN [ok |-> TRUE, v |-> IF f.arity = "opt" THEN [some |-> [v |-> b - 1, x |-> A[b].v]]
-                                   ELSE [v |-> b - 1, x |-> A[b].v]]
-          ELSE [ok |-> FALSE, why |-> [k |-> "leftover"]]
-     ELSE IF Z # {} THEN LET b == MinOf(Z) IN
-                          [ok |-> TRUE, v |-> IF f.arity = "opt" THEN [some |-> [v |-> b - 1, x |-> A[b].v]]
-                                              ELSE [v |-> b - 1, x |-> A[b].v]]
-     ELSE IF f.arity = "opt" THEN [ok |-> TRUE, v |-> "NONE"]
-     ELSE [ok |-> FALSE, why |-> [k |-> "missing", id |-> f.id]]
+     ELSE IF Z = {}
+     THEN IF \E b \in DOMAIN A : A[b].res = "phard" THEN [ok |-> FALSE, why |-> [k |-> "conv"]]
+          ELSE IF Leftover(f, R0) THEN [ok |-> FALSE, why |-> [k |-> "leftover"]]
+          ELSE IF f.arity = "opt" THEN [ok |-> TRUE, v |-> "NONE", pool |-> pool]
+          ELSE [ok |-> FALSE, why |-> [k |-> "missing", id |-> f.id]]
+     ELSE LET w  == IF S # {} THEN CHOOSE b \in S : \A c \in S : A[b].left < A[c].left \/ (A[b].left = A[c].left /\ b <= c)
+                    ELSE MinOf(Z)
+              R2 == [i \in DOMAIN R0 |-> IF i \in A[w].allof THEN <<>> ELSE IF i \in A[w].used THEN Tail(R0[i]) ELSE R0[i]] IN
+          IF Leftover(f, R2) THEN [ok |-> FALSE, why |-> [k |-> "conflict"]]
+          ELSE [ok |-> TRUE, v |-> Wrap([v |-> w - 1, x |-> A[w].v]), pool |-> R2[POOL]]
 
 \* value of one closed block of an adjacent group
 BlockVal(g, b) ==
@@ -279,15 +295,18 @@ GFinish(d, gs0, envv) ==
         fv == [k \in DOMAIN d.named |->
                  LET f == d.named[k] IN
                  IF IsLeaf(f) THEN NamedVal(plain, f, envv)
-                 ELSE IF f.kind = "alt" THEN AltVal(f, gs.acc, envv)
+                 ELSE IF f.kind = "alt" THEN AltVal(f, gs.acc, envv, gs.pos)
                  ELSE AdjVal(f, gs.blocks[k])]
-        bad == {k \in DOMAIN fv : ~fv[k].ok} IN
+        bad == {k \in DOMAIN fv : ~fv[k].ok}
+        \* words a positional branch of a choice took are gone (at most one choice of a level has such a branch)
+        PA == {k \in DOMAIN d.named : HasPosBranch(d.named[k])} IN
     IF bad # {} THEN [class |-> "stderr", why |-> fv[MinOf(bad)].why]
-    ELSE LET base == [k \in DOMAIN fv |-> fv[k].v] IN
+    ELSE LET base == [k \in DOMAIN fv |-> fv[k].v]
+             rest == IF PA = {} THEN gs.pos ELSE fv[MinOf(PA)].pool IN
       IF d.tail.kind = "pos"
-      THEN LET r == AssignPos(d.tail.items, gs.pos, <<>>) IN
+      THEN LET r == AssignPos(d.tail.items, rest, <<>>) IN
            IF r.ok THEN [class |-> "ok", value |-> [t |-> base \o r.vals]] ELSE [class |-> "stderr", why |-> r.why]
-      ELSE IF gs.pos = <<>> THEN [class |-> "ok", value |-> [t |-> base]]
+      ELSE IF rest = <<>> THEN [class |-> "ok", value |-> [t |-> base]]
       ELSE [class |-> "stderr", why |-> [k |-> "surplus"]]
 
 GOutcome(d, gs, envv) ==
@@ -315,7 +334,7 @@ AltExclusive ==
   \A k \in DOMAIN def.named :
     LET f == def.named[k] IN
     (f.kind = "alt" /\ f.arity \in {"one", "opt"} /\
-     Cardinality({b \in DOMAIN f.branches : \E it \in RangeOf(f.branches[b].fields) : st.acc[it.id] # <<>>}) >= 2)
+     Cardinality({b \in DOMAIN f.branches : \E it \in RangeOf(f.branches[b].fields) : it.kind # "pos" /\ st.acc[it.id] # <<>>}) >= 2)
       => GOut.class # "ok"
 \* C07: a repeated choice delivers one value per consumed leftmost item, in command-line order of those items
 \* C19: every value of an adjacent group is a block of neighbouring items: closed blocks are only ever
